@@ -347,14 +347,22 @@ pub fn random_history(r: &mut Rng, len: usize, grid: bool) -> Vec<Op> {
 
 /// Random animator configuration over shape S in the exact regime.
 pub fn random_anim<S: Shape>(r: &mut Rng) -> AnimSpec {
+    random_anim_opt::<S>(r, false)
+}
+
+/// `distinct_per_property`: the C04 statement's scope ("distinct keyframe positions per property") — several
+/// keyframes may share a position as long as no property is defined twice there. The other animator properties
+/// are not restricted in this way.
+pub fn random_anim_opt<S: Shape>(r: &mut Rng, distinct_per_property: bool) -> AnimSpec {
     let mut spec = crate::checks::c08::gen_anim::<S>(r, &GenOpts { random_pos: true, rec: false, ..GenOpts::default() });
-    // distinct keyframe positions *per property* (the C04 statement's scope): several keyframes may share a
-    // position as long as no property is defined twice there
+    // Outside C04 a property may have several keyframes at one position (a step), except at 0 %: which of two 0 %
+    // keyframes a blend replaces is the ambiguity C10's scope note describes (the substituted start would have to
+    // be shown and the stretch it governs is empty), so animators never get that shape.
     for st in spec.states.iter_mut() {
         for t in st.iter_mut() {
             for i in 1..t.kfs.len() {
                 for j in 0..i {
-                    if t.kfs[j].pos == t.kfs[i].pos {
+                    if t.kfs[j].pos == t.kfs[i].pos && (distinct_per_property || t.kfs[i].pos == 0.0) {
                         for f in 0..t.kfs[i].vals.len() {
                             if t.kfs[j].vals[f].is_some() {
                                 t.kfs[i].vals[f] = None;
